@@ -179,8 +179,12 @@ TRIAGED_RTOL = {
 }
 
 
+TRIAGED_RTOL_WHY = ("in the volumetric primitives a centre comparison that is conjoined with the comparison of the radii only decides which end of a "
+                    "frustum a sphere that is known to sit on one of them belongs to; it is never the sole ground of a decision")
+
+
 def _triaged(col_repo, dd, node, t):
-    if "relative tolerance" not in t[1] or dd.qualname not in TRIAGED_RTOL:
+    if "relative tolerance" not in t[1] or dd.module.name != "swcgeom.utils.volumetric_object":
         return False
     par = col_repo.parent(node)
     if not (isinstance(par, ast.BoolOp) and isinstance(par.op, ast.And)):
@@ -198,7 +202,7 @@ def report(col, rule, results, what_prefix="", repo=None):
             for b in bads:
                 if _triaged(repo, *b):
                     col.info(rule, b[0].qualname, b[0].loc(b[1]), "position comparison with a relative tolerance (triaged)",
-                             f"`{ast.unparse(b[1])[:70]}`: {TRIAGED_RTOL[b[0].qualname]}", stmt="triaged-rtol")
+                             f"`{ast.unparse(b[1])[:70]}`: {TRIAGED_RTOL.get(b[0].qualname, TRIAGED_RTOL_WHY)}", stmt="triaged-rtol")
                 else:
                     kept.append(b)
             bads = kept
